@@ -568,8 +568,8 @@ Qed.
 Theorem arc_cropped_reparam (P : ArcP R) t0 t1 :
   arc_wf P -> t0 < t1 -> Rabs ((t1 - t0) * a_delta P) < 360 ->
   snap_inactive (arc_point NumR NumTR P t0) (a_radius P) (arc_point NumR NumTR P t1) (a_rotation P) false ->
-  let Q := arc_of_args NumR NumTR (arc_cropped_args NumR NumTR P t0 t1) in
-  arc_cropped NumR NumTR P t0 t1 = Ok Q /\
+  let Q := arc_of_args NumR NumTR false (arc_cropped_args NumR NumTR P t0 t1) in
+  arc_cropped NumR NumTR false P t0 t1 = Ok Q /\
   a_center Q = a_center P /\ a_radius Q = a_radius P /\
   a_delta Q = (t1 - t0) * a_delta P /\
   (cos (a_theta Q * PI / 180) = cos ((a_theta P + t0 * a_delta P) * PI / 180) /\
@@ -612,8 +612,8 @@ Theorem arc_reversed_reparam (P : ArcP R) :
   Rabs (a_delta P) < 360 ->
   (180 < Rabs (a_delta P) -> a_large P = true) -> (Rabs (a_delta P) < 180 -> a_large P = false) ->
   snap_inactive (a_end P) (a_radius P) (a_start P) (a_rotation P) false ->
-  let Q := arc_of_args NumR NumTR (arc_reversed_args P) in
-  arc_reversed NumR NumTR P = Ok Q /\
+  let Q := arc_of_args NumR NumTR false (arc_reversed_args P) in
+  arc_reversed NumR NumTR false P = Ok Q /\
   a_center Q = a_center P /\ a_radius Q = a_radius P /\
   a_delta Q = - a_delta P /\
   (cos (a_theta Q * PI / 180) = cos ((a_theta P + a_delta P) * PI / 180) /\
@@ -672,9 +672,9 @@ Theorem arc_split_reparam (P : ArcP R) t :
   arc_wf P -> 0 < t < 1 -> Rabs (a_delta P) < 360 ->
   snap_inactive (arc_point NumR NumTR P 0) (a_radius P) (arc_point NumR NumTR P t) (a_rotation P) false ->
   snap_inactive (arc_point NumR NumTR P t) (a_radius P) (arc_point NumR NumTR P 1) (a_rotation P) false ->
-  let A := arc_of_args NumR NumTR (arc_cropped_args NumR NumTR P 0 t) in
-  let B := arc_of_args NumR NumTR (arc_cropped_args NumR NumTR P t 1) in
-  arc_split NumR NumTR P t = Ok (A, B) /\
+  let A := arc_of_args NumR NumTR false (arc_cropped_args NumR NumTR P 0 t) in
+  let B := arc_of_args NumR NumTR false (arc_cropped_args NumR NumTR P t 1) in
+  arc_split NumR NumTR false P t = Ok (A, B) /\
   (a_center A = a_center P /\ a_radius A = a_radius P /\ a_delta A = t * a_delta P) /\
   (a_center B = a_center P /\ a_radius B = a_radius P /\ a_delta B = (1 - t) * a_delta P) /\
   (forall u, arc_point NumR NumTR A u = arc_point NumR NumTR P (u * t)) /\
@@ -736,8 +736,8 @@ Corollary arc_init_reversed_reparam start radius rotation large sweep end_ :
   snap_inactive start radius end_ rotation false ->
   let P := arc_init NumR NumTR start radius rotation large sweep end_ in
   snap_inactive (a_end P) (a_radius P) (a_start P) (a_rotation P) false ->
-  let Q := arc_of_args NumR NumTR (arc_reversed_args P) in
-  arc_reversed NumR NumTR P = Ok Q /\
+  let Q := arc_of_args NumR NumTR false (arc_reversed_args P) in
+  arc_reversed NumR NumTR false P = Ok Q /\
   a_center Q = a_center P /\ a_radius Q = a_radius P /\ a_delta Q = - a_delta P /\
   (forall u, arc_point NumR NumTR Q u = arc_point NumR NumTR P (1 - u)).
 Proof.
@@ -773,8 +773,8 @@ Proof.
 Qed.
 
 Example crop_W :
-  let Q := arc_of_args NumR NumTR (arc_cropped_args NumR NumTR W 0 (1 / 2)) in
-  arc_cropped NumR NumTR W 0 (1 / 2) = Ok Q /\ a_center Q = a_center W /\ a_radius Q = (1, 1) /\
+  let Q := arc_of_args NumR NumTR false (arc_cropped_args NumR NumTR W 0 (1 / 2)) in
+  arc_cropped NumR NumTR false W 0 (1 / 2) = Ok Q /\ a_center Q = a_center W /\ a_radius Q = (1, 1) /\
   a_delta Q = 90 /\ forall u, arc_point NumR NumTR Q u = arc_point NumR NumTR W (u / 2).
 Proof.
   destruct crop_W_hyps as (Hwf & Ht & HD & Hs).
